@@ -65,6 +65,7 @@ func IPSK(keyLen int) []byte {
 
 // Rig is one running multi-user server with its credential manager and management API.
 type Rig struct {
+	Name   string // server name in the manager and in API paths
 	KeyLen int
 	Mode   Mode
 	Path   string
@@ -97,39 +98,65 @@ func register[H ~func(http.ResponseWriter, *http.Request) (int, error)](method, 
 // them with a fresh credential manager on the store file at path, and mounts the ssm handlers.
 // The error is RegisterServer's: the store file could not be loaded at start-up.
 func NewRig(path string, keyLen int, mode Mode, logger *zap.Logger) (*Rig, error) {
+	rigs, err := NewMultiRig([]ServerSpec{{Name: ServerName, Path: path, KeyLen: keyLen, Mode: mode}}, logger)
+	if err != nil {
+		return nil, err
+	}
+	return rigs[0], nil
+}
+
+// ServerSpec describes one multi-user server of a multi-server rig.
+type ServerSpec struct {
+	Name   string
+	Path   string
+	KeyLen int
+	Mode   Mode
+}
+
+// NewMultiRig registers several multi-user servers (each with its own protocol objects and
+// store file) with ONE credential manager and mounts one ssm API for all of them, as
+// service.Config.Manager does for a configuration with several servers. The returned rigs
+// share Mgr and Mux; each addresses its own server.
+func NewMultiRig(specs []ServerSpec, logger *zap.Logger) ([]*Rig, error) {
 	if logger == nil {
 		logger = zap.NewNop()
 	}
-	r := &Rig{KeyLen: keyLen, Mode: mode, Path: path, Logger: logger, ipsk: IPSK(keyLen)}
-	icc, err := ss2022.NewServerIdentityCipherConfig(r.ipsk, mode.HasUDP())
-	if err != nil {
-		return nil, err
+	mgr := cred.NewManager(logger)
+	mux := http.NewServeMux()
+	byName := map[string]ssm.Server{}
+	var names []string
+	var rigs []*Rig
+	for _, sp := range specs {
+		r := &Rig{Name: sp.Name, KeyLen: sp.KeyLen, Mode: sp.Mode, Path: sp.Path, Logger: logger, ipsk: IPSK(sp.KeyLen), Mgr: mgr, Mux: mux}
+		icc, err := ss2022.NewServerIdentityCipherConfig(r.ipsk, sp.Mode.HasUDP())
+		if err != nil {
+			return nil, err
+		}
+		var tcpStore, udpStore *ss2022.CredStore
+		if sp.Mode.HasTCP() {
+			scc := ss2022.StreamServerConfig{IdentityCipherConfig: icc, RejectPolicy: ss2022.JustClose}
+			r.TCP = scc.NewStreamServer()
+			tcpStore = &r.TCP.CredStore
+		}
+		if sp.Mode.HasUDP() {
+			r.UDP = ss2022.NewUDPServer(0, ss2022.UserCipherConfig{}, icc, ss2022.NoPadding)
+			udpStore = &r.UDP.CredStore
+		}
+		r.MS, err = mgr.RegisterServer(sp.Name, sp.Path, sp.KeyLen, tcpStore, udpStore)
+		if err != nil {
+			return nil, err
+		}
+		byName[sp.Name] = ssm.Server{CredentialManager: r.MS, StatsCollector: stats.Config{Enabled: true}.Collector()}
+		names = append(names, sp.Name)
+		rigs = append(rigs, r)
 	}
-	var tcpStore, udpStore *ss2022.CredStore
-	if mode.HasTCP() {
-		scc := ss2022.StreamServerConfig{IdentityCipherConfig: icc, RejectPolicy: ss2022.JustClose}
-		r.TCP = scc.NewStreamServer()
-		tcpStore = &r.TCP.CredStore
-	}
-	if mode.HasUDP() {
-		r.UDP = ss2022.NewUDPServer(0, ss2022.UserCipherConfig{}, icc, ss2022.NoPadding)
-		udpStore = &r.UDP.CredStore
-	}
-	r.Mgr = cred.NewManager(logger)
-	r.MS, err = r.Mgr.RegisterServer(ServerName, path, keyLen, tcpStore, udpStore)
-	if err != nil {
-		return nil, err
-	}
-	r.Mux = http.NewServeMux()
-	sm := ssm.NewServerManager(map[string]ssm.Server{
-		ServerName: {CredentialManager: r.MS, StatsCollector: stats.Config{Enabled: true}.Collector()},
-	}, []string{ServerName})
+	sm := ssm.NewServerManager(byName, names)
 	mountMu.Lock()
-	mountMux = r.Mux
+	mountMux = mux
 	sm.RegisterHandlers(register)
 	mountMux = nil
 	mountMu.Unlock()
-	return r, nil
+	return rigs, nil
 }
 
 // Start starts the manager's save goroutine(s); Stop waits for them (cancel ctx first).
@@ -170,29 +197,44 @@ const UsersPath = usersPath
 
 const usersPath = "/servers/" + ServerName + "/users"
 
+func (r *Rig) usersPath() string { return "/servers/" + r.Name + "/users" }
+
+// GetUser returns what GET /servers/{server}/users/{name} reports (status, key).
+func (r *Rig) GetUser(name string) (int, []byte) {
+	code, body := r.Do(http.MethodGet, r.usersPath()+"/"+name, nil)
+	if code != http.StatusOK {
+		return code, nil
+	}
+	var u userJSON
+	if json.Unmarshal(body, &u) != nil {
+		return code, nil
+	}
+	return code, u.UPSK
+}
+
 type userJSON struct {
 	Name string `json:"username"`
 	UPSK []byte `json:"uPSK"`
 }
 
 func (r *Rig) Add(name string, key []byte) (int, []byte) {
-	return r.Do(http.MethodPost, usersPath, userJSON{name, key})
+	return r.Do(http.MethodPost, r.usersPath(), userJSON{name, key})
 }
 func (r *Rig) Update(name string, key []byte) (int, []byte) {
-	return r.Do(http.MethodPatch, usersPath+"/"+name, struct {
+	return r.Do(http.MethodPatch, r.usersPath()+"/"+name, struct {
 		UPSK []byte `json:"uPSK"`
 	}{key})
 }
 func (r *Rig) Delete(name string) (int, []byte) {
-	return r.Do(http.MethodDelete, usersPath+"/"+name, nil)
+	return r.Do(http.MethodDelete, r.usersPath()+"/"+name, nil)
 }
 func (r *Rig) Reload() (int, []byte) {
-	return r.Do(http.MethodPost, "/servers/"+ServerName+"/reload-users", nil)
+	return r.Do(http.MethodPost, "/servers/"+r.Name+"/reload-users", nil)
 }
 
 // List returns what GET /servers/ss/users lists, as name -> key. A name listed twice is an error.
 func (r *Rig) List() (map[string][]byte, error) {
-	code, body := r.Do(http.MethodGet, usersPath, nil)
+	code, body := r.Do(http.MethodGet, r.usersPath(), nil)
 	if code != http.StatusOK {
 		return nil, fmt.Errorf("list users: status %d body %q", code, body)
 	}
